@@ -601,6 +601,14 @@ func (sw *sweeper) call(mode string, rm recvMaker, holder reflect.Value, m refle
 		res = holder.Method(m.Index).Call(as.vals)
 	}()
 	ev.NonZero, ev.ErrRes = []string{}, "false"
+	firstFmt := ""
+	if ev.Panic == "" {
+		firstFmt = fmtResults(res) // before the returned container is scribbled over
+	}
+	if ev.Panic == "" && m.Name == "Unmarshal" && len(res) > 0 {
+		// scribble over the returned container: the receiver must not notice
+		scribble(res[0].Interface(), 0)
+	}
 	if ev.Panic == "" {
 		ev.NonZero, ev.ErrRes = resultFacts(res)
 		if again {
@@ -614,7 +622,7 @@ func (sw *sweeper) call(mode string, rm recvMaker, holder reflect.Value, m refle
 				res2 = holder.Method(m.Index).Call(as.vals)
 			}()
 			if ev.Again == "n/a" {
-				if fmtResults(res) == fmtResults(res2) {
+				if firstFmt == fmtResults(res2) {
 					ev.Again = "same"
 				} else {
 					ev.Again = "differs"
@@ -1050,4 +1058,16 @@ func replayAsArgument(want SweepEvent) (bool, string) {
 		}
 	}
 	return false, "event not found on re-execution"
+}
+
+
+func scribble(x any, depth int) {
+	if l, ok := x.([]any); ok && depth < 6 {
+		for i := range l {
+			if inner, ok := l[i].([]any); ok {
+				scribble(inner, depth+1)
+			}
+			l[i] = "<<scribbled>>"
+		}
+	}
 }
